@@ -77,8 +77,9 @@ def gen_plumb(rng, cid):
     nonlinear = mode.startswith("newton")
     u = [rng.randint(-9, 9) for _ in range(n)] if nonlinear else []
     answer = [rng.randint(-9, 9) for _ in range(rng.randint(3, 7))]
+    scales = [rng.choice([-60, -40, -30, -27, 30, 60])] if rng.random() < 0.5 else []
     return {"id": cid, "mode": mode, "Nn": Nn, "dof_n": dof_n, "type": et, "connect": connect, "K_e": K_e, "F_e": F_e,
-            "neumann": neumann, "dirichlet": dirichlet, "lagrange": lagrange, "nonlinear": nonlinear, "u": u, "answer": answer}
+            "neumann": neumann, "dirichlet": dirichlet, "lagrange": lagrange, "nonlinear": nonlinear, "u": u, "answer": answer, "scales": scales}
 
 
 def zl(xs):
@@ -183,6 +184,8 @@ if res.get("error"):
 for c in res.get("checks", []):
     print(("ok   " if c["ok"] else "FAIL ") + c["name"], json.dumps(c["detail"])[:300])
     bad |= 0 if c["ok"] else 1
+if res.get("scale_fail"):
+    print("not homogeneous in the data (scaled twin):", json.dumps(res["scale_fail"])[:600]); bad = 1
 pv = (res.get("pred") or {}).get("constrained_values")
 if pv:
     print("constrained dofs do not hold the sum of the entered values: (dof, observed, expected) =", pv); bad = 1
@@ -282,6 +285,15 @@ def plumbing(ctx):
         ctx.violation(key, "%s; plumbing case %d (%s): (dof, observed, expected) = %s; %d cases" % (what, cid, case["mode"], pv[:2], len(lst)),
                       {"replay_py": REPLAY % dict(req=json.dumps({"mode": "plumb", "cases": [case]}), expected=None), "case": case}, found_input=True)
         reported.add(key)
+    sc_bad = [(cid, res["scale_fail"]) for cid, res in sorted(results.items()) if not res.get("error") and res.get("scale_fail")]
+    nsc = sum(1 for c in cases if c["scales"])
+    split_obl(ctx, "corrA:scaled-twins-exactly-homogeneous", len(sc_bad), nsc, "; ".join("%d %s" % (c, f[0]["what"]) for c, f in sc_bad[:3]))
+    ctx.cov["plumbing_scaled_twins"] = nsc
+    if sc_bad:
+        cid, f = sc_bad[0]
+        ctx.violation("scale-dependence:" + byid[cid]["mode"].replace("dup", ""), "plumbing case %d (%s) with every prescribed value, load and backend answer multiplied by 2^%d: %s (%s); %d cases. The solve is homogeneous of degree 1 in the data (C04_r1_homogeneous): an absolute threshold has entered" % (
+                      cid, byid[cid]["mode"], f[0]["k"], f[0]["what"], json.dumps({k: v for k, v in f[0].items() if k not in ("k", "what")}), len(sc_bad)),
+                      {"replay_py": REPLAY % dict(req=json.dumps({"mode": "plumb", "cases": [byid[cid]]}), expected=None), "case": byid[cid]}, found_input=True)
     for cid, e in errors[:2]:
         ctx.violation("plumbing-raises", "plumbing case %d (%s) raised %s" % (cid, byid[cid]["mode"], e),
                       {"replay_py": REPLAY % dict(req=json.dumps({"mode": "plumb", "cases": [byid[cid]]}), expected=None), "case": byid[cid], "trace": results[cid].get("trace")}, found_input=True)
@@ -395,8 +407,9 @@ def gen_phys(rng, cid, tier):
     if rng.random() < (0.35 if tier == "quick" else 0.5):
         backends = ["cg", "bicg", "gmres", "lgmres", "lsq_linear"]
     lag_as = rng.randrange(len(dirichlet)) if rng.random() < 0.5 else None
+    scales = [[rng.choice([-60, -40, -30, -27, 30]), rng.choice([0, 0, 20, -20, 40])]] if rng.random() < 0.6 else []
     return {"id": cid, "kind": kind, "elem": elem, "nx": nx, "ny": ny, "orphans": orphans, "dirichlet": dirichlet,
-            "neumann": neumann, "backends": backends, "lag_as": lag_as}
+            "neumann": neumann, "backends": backends, "lag_as": lag_as, "scales": scales}
 
 
 def gen_multi(rng, cid):
@@ -521,6 +534,8 @@ def physics(ctx):
                         key = "backend-raises:" + c["name"].split(":")[1]
                     if key is None and c["name"].startswith("lagrange-backends:"):
                         key = "lagrange-backend:" + c["name"].split(":")[1]
+                    if key is None and c["name"].startswith("scaled-twin:"):
+                        key = "scale-dependence:physics:" + c["name"].split(":")[1]
                     if key is None and c["name"].startswith("orphans:"):
                         key = "orphan-nodes:" + c["name"].split(":")[1] + ":" + c["name"].split(":")[-1]
                     if key is None and c["name"].startswith("multi:"):
